@@ -6,6 +6,52 @@ State: named trees and the store of cached maps (persisting until `reset`).
 -/
 open Rs Rs.Proto
 
+/-- rope construction programs (C16) -/
+inductive RExpr where
+  | new | from_ (t : Text) | iter (ts : List Text) | add (e : RExpr) (t : Text) | append (a b : RExpr)
+  | slice (e : RExpr) (a b : Nat) | line (e : RExpr) (k : Nat)
+
+def pRExpr : Nat → P RExpr
+  | 0 => fun _ => none
+  | fuel + 1 => fun ts => match ts with
+    | "new" :: ts => some (.new, ts)
+    | "from" :: ts => do let (t, ts) ← pText ts; pure (.from_ t, ts)
+    | "iter" :: ts => do let (l, ts) ← pList pText ts; pure (.iter l, ts)
+    | "add" :: ts => do let (e, ts) ← pRExpr fuel ts; let (t, ts) ← pText ts; pure (.add e t, ts)
+    | "append" :: ts => do let (a, ts) ← pRExpr fuel ts; let (b, ts) ← pRExpr fuel ts; pure (.append a b, ts)
+    | "slice" :: ts => do let (e, ts) ← pRExpr fuel ts; let (a, ts) ← pNat ts; let (b, ts) ← pNat ts; pure (.slice e a b, ts)
+    | "line" :: ts => do let (e, ts) ← pRExpr fuel ts; let (k, ts) ← pNat ts; pure (.line e k, ts)
+    | _ => none
+
+/-- evaluate; `.error` = the program panics (out-of-domain slice) or violates an unsafe precondition -/
+def evalR : RExpr → Except String Rope
+  | .new => .ok Rope.new
+  | .from_ t => .ok (.light t)
+  | .iter ts => .ok (Rope.fromIter ts)
+  | .add e t => (evalR e).map (·.add t)
+  | .append a b => do let x ← evalR a; let y ← evalR b; pure (x.append y)
+  | .slice e a b => do
+    let r ← evalR e
+    if a > b ∨ b > r.len then .error "slice"
+    else if !r.sliceUnsafeOK a b then .error "unsafe"
+    else match r.byteSlice a b with | .ok x => pure x | .error _ => .error "slice"
+  | .line e k => do
+    let r ← evalR e
+    match (r.linesR true)[k]? with | some x => pure x | none => .error "noline"
+
+def showTrapB : Except Rope.Trap Bool → String
+  | .ok b => showBool b
+  | .error _ => "panic"
+
+/-- all unary observers of a rope, one line -/
+def ropeObs (r : Rope) : String :=
+  let t := r.render
+  let bytes := (List.range (r.len + 2)).map fun i => match r.getByte i with | .ok (some b) => toString b.toNat | .ok none => "-" | .error _ => "!"
+  let slices := (List.range (r.len + 2)).map fun a => (List.range (r.len + 2)).map fun b =>
+    if a > b ∨ b > r.len then "-" else if !r.sliceUnsafeOK a b then "U" else match r.byteSlice a b with | .ok x => showText x.render | .error _ => "-"
+  let ci := r.charIndices.map fun (i, c) => s!"{i}:{c}"
+  s!"len {r.len} empty {showBool r.isEmpty} text {showText t} bytes {" ".intercalate bytes} ci {",".intercalate ci} lines {showList (fun x => showText x.render) (r.linesR true)} endsnl {showBool (r.endsWith NL)} endsa {showBool (r.endsWith 97)} eqstr {showTrapB (r.eqStr t)} slices {" ".intercalate (slices.map (",".intercalate ·))}"
+
 structure DState where
   trees : List (String × Src) := []
   store : Store := []
@@ -57,6 +103,21 @@ def step (d : DState) (line : String) : DState × String :=
   | ["clonecheck", n] =>
     match d.tree? n with
     | some a => (d, if a.eqv a then "15" else "14")
+    | none => bad
+  | "rope" :: "obs" :: rest =>
+    match pRExpr (rest.length + 1) rest with
+    | some (e, []) => (d, match evalR e with | .ok r => ropeObs r | .error m => "panic " ++ m)
+    | _ => bad
+  | "rope" :: "pair" :: rest =>
+    match pRExpr (rest.length + 1) rest with
+    | some (e1, rest2) =>
+      match pRExpr (rest2.length + 1) rest2 with
+      | some (e2, rest3) =>
+        match rest3, evalR e1, evalR e2 with
+        | [], .ok a, .ok b => (d, s!"eq {showTrapB (a.eqRope b)} sw {showBool (a.startsWith b)} ws {showBool (b.startsWith a)} eqs {showTrapB (a.eqStr b.render)}")
+        | [], _, _ => (d, "panic build")
+        | _, _, _ => bad
+      | none => bad
     | none => bad
   | "enc" :: c :: rest =>
     match pBool [c], pList pMapping rest with
